@@ -90,6 +90,8 @@ pub struct PartCfg {
     pub heap_cap: usize,
     /// is a hang (no answer within timeout_ms) a violation of this property? if false it is counted as inconclusive
     pub hang_is_violation: bool,
+    /// is a worker abort / heap-cap hit a violation of this property? if false it is counted as inconclusive
+    pub crash_is_violation: bool,
     pub threads: usize,
     /// enumerated part covers its finite domain completely
     pub exhaustive: bool,
@@ -107,6 +109,7 @@ impl PartCfg {
             timeout_ms: 20_000,
             heap_cap: 2 << 30,
             hang_is_violation: false,
+            crash_is_violation: true,
             threads: default_threads(),
             exhaustive: false,
             shrink_budget: 1500,
@@ -126,6 +129,10 @@ impl PartCfg {
     }
     pub fn hang_is_violation(mut self, b: bool) -> Self {
         self.hang_is_violation = b;
+        self
+    }
+    pub fn crash_is_violation(mut self, b: bool) -> Self {
+        self.crash_is_violation = b;
         self
     }
     pub fn threads(mut self, n: usize) -> Self {
@@ -305,6 +312,9 @@ impl<'a, C: CaseT> Evaluator<'a, C> {
                         Ok(r) => EvalOut { v: r.v, cpu_us: r.cpu_us, peak: r.peak, inconclusive: false },
                         Err(e) => EvalOut { v: Verdict::discard(format!("bad worker frame: {e}")), cpu_us: 0, peak: 0, inconclusive: true },
                     },
+                    worker::Reply::Died { signal, code } if !cfg.crash_is_violation => {
+                        EvalOut { v: Verdict::discard(format!("worker died (signal {signal:?}, code {code:?}): not this property's subject")), cpu_us: 0, peak: 0, inconclusive: true }
+                    }
                     worker::Reply::Died { signal, code } => {
                         let class = classify(c);
                         if code == Some(alloc::HEAPCAP_EXIT) {
@@ -547,10 +557,13 @@ impl<C: CaseT> PartDyn for Part<C> {
                     let hs: Vec<_> = (0..threads)
                         .map(|t| {
                             let quota = n / threads + u64::from(t < n % threads);
-                            s.spawn(move || {
-                                let strat = factory();
-                                self.run_generated_thread(sh, t, quota, &strat)
-                            })
+                            std::thread::Builder::new()
+                                .name(format!("icyv-{t}"))
+                                .spawn_scoped(s, move || {
+                                    let strat = factory();
+                                    self.run_generated_thread(sh, t, quota, &strat)
+                                })
+                                .expect("spawn engine thread")
                         })
                         .collect();
                     hs.into_iter().map(|h| h.join().expect("engine thread panicked")).collect()
@@ -562,7 +575,15 @@ impl<C: CaseT> PartDyn for Part<C> {
             Source::Enumerated { total, make } => {
                 let next = AtomicU64::new(0);
                 let results: Vec<PartStats> = std::thread::scope(|s| {
-                    let hs: Vec<_> = (0..threads).map(|_| s.spawn(|| self.run_enumerated_thread(sh, &next, *total, &**make))).collect();
+                    let hs: Vec<_> = (0..threads)
+                        .map(|t| {
+                            let next = &next;
+                            std::thread::Builder::new()
+                                .name(format!("icyv-{t}"))
+                                .spawn_scoped(s, move || self.run_enumerated_thread(sh, next, *total, &**make))
+                                .expect("spawn engine thread")
+                        })
+                        .collect();
                     hs.into_iter().map(|h| h.join().expect("engine thread panicked")).collect()
                 });
                 for r in results {
